@@ -206,7 +206,7 @@ Lemma mkdir_eq s p perm :
 Proof.
   intros W Hwf Hl k pm item. cbn [wf_op] in Hwf. apply andb_true_iff in Hwf as [Hn Hwf]. fold k in Hwf, Hl. rewrite Hl in Hwf.
   assert (Hc : canon k) by now apply canon_normalize.
-  rewrite (m_mkdir_missing s p perm Hl). cbv zeta. fold k pm.
+  rewrite (m_mkdir_missing s p perm Hl (below_file_dir_parent s k Hc Hwf)). cbv zeta. fold k pm.
   destruct (reg_new_present s k (mkdir_node k pm (mclock s)) pm W Hc Hl) as (q & Hq & -> & W'); auto.
   exists q. split; [exact Hq|]. apply set_file_mode_canon; [exact Hc|].
   rewrite lookup_upd, lookup_put_new, beqb_refl. reflexivity.
@@ -331,7 +331,7 @@ Proof.
     rewrite Hpn. destruct x as [pm|d pm]; [|destruct Hi as [Hi _]; rewrite Hi in Hd; discriminate].
     unfold m_mkdirall, m_mkdir. fold k. rewrite Hl. cbn. split; [exact R | reflexivity].
   - destruct (rel_none s t k R Hl) as [Hp Hpn]. rewrite Hpn.
-    unfold m_mkdirall in *. rewrite (m_mkdir_missing s p perm Hl) in *. cbv zeta in *. fold k in W' |- *.
+    unfold m_mkdirall in *. rewrite (m_mkdir_missing s p perm Hl (below_file_prefixes_dirs s k W Hc Hwf)) in *. cbv zeta in *. fold k in W' |- *.
     set (pm := Z.land perm chmod_bits) in *. set (item := length (mheap s)) in *.
     set (nd := mkdir_node k pm (mclock s)) in *. set (s2 := put_new s k nd) in *.
     destruct (WF_mkdir_chain s k pm W Hc Hl Hwf) as [W3 F3]. fold nd s2 item in W3, F3.
@@ -518,6 +518,7 @@ Proof.
   - destruct (rel_none s t k R Hl) as [Hp Hx]. rewrite Hp.
     assert (Hk : kind_at s k = None) by (unfold kind_at; now rewrite Hl). rewrite Hk in Hwf.
     rewrite <- (rel_is_dir s t _ R). change (pparent k) with (par k). rewrite Hwf.
+    rewrite (below_file_dir_parent s k Hc Hwf) in *.
     rewrite m_create_node_eq in *.
     destruct (reg_new_present s k (new_file k (mclock s)) 0 W Hc Hl) as (q & Hq & Ereg & _); auto.
     rewrite Ereg in *. unfold popen, alloc_handle in *. cbn [fst snd mproj] in *.
@@ -588,6 +589,7 @@ Proof.
     destruct (flag_has flag o_create) eqn:Hcr; [|split; [exact R | reflexivity]].
     assert (Hk : kind_at s k = None) by (unfold kind_at; now rewrite Hl). rewrite Hk in Hwf.
     rewrite <- (rel_is_dir s t _ R). change (pparent k) with (par k). rewrite Hwf.
+    rewrite (below_file_dir_parent s k Hc Hwf) in *.
     rewrite m_create_node_eq in *.
     destruct (reg_new_present s k (new_file k (mclock s)) 0 W Hc Hl) as (q & Hq & Ereg & _); auto.
     rewrite Ereg in *. cbv zeta in *. rewrite Happ, Htr, Hdead in *.
